@@ -56,8 +56,13 @@ func (c *batchCollector) Add(in interface{}) error {
 
 	last := c.chunks[len(c.chunks)-1]
 	if last.Info().SampleCount >= c.maxSamples {
-		last = &betterCollector{maxDeltas: c.maxSamples}
-		c.chunks = append(c.chunks, last)
+		// the next chunk joins the others only once it holds the document
+		next := &betterCollector{maxDeltas: c.maxSamples}
+		if err := next.Add(doc); err != nil {
+			return errors.WithStack(err)
+		}
+		c.chunks = append(c.chunks, next)
+		return nil
 	}
 
 	return errors.WithStack(last.Add(doc))
